@@ -13,6 +13,7 @@ CONSTANTS
   RecheckRef = TRUE
   AtomicFin = FALSE
   RecheckClosed = FALSE
+  ClearDelf = TRUE
   CloseExcl = TRUE
 SYMMETRY Symm
 VIEW View
